@@ -330,6 +330,8 @@ namespace bluetoe
                             if ( write_size != 1 + 2 * sizeof( std::uint8_t* ) )
                                 return request_error( bluetoe::error_codes::invalid_attribute_value_length );
 
+                            // start_address is reused: flash mode ends with a new procedure
+                            in_flash_mode = false;
                                                  start_address = read_address( value +1 );
                             const std::uintptr_t end_address   = read_address( value +1 + sizeof( std::uint8_t* ) );
 
@@ -394,6 +396,8 @@ namespace bluetoe
                             if ( write_size != 1 + 2 * sizeof( std::uint8_t* ) )
                                 return request_error( bluetoe::error_codes::invalid_attribute_value_length );
 
+                            // start_address is reused: flash mode ends with a new procedure
+                            in_flash_mode = false;
                             error         = error_codes::success;
                             start_address = read_address( value +1 );
                             end_address   = read_address( value +1 + sizeof( std::uint8_t* ) );
